@@ -250,7 +250,7 @@ mod verif_in_ctx_pkt {
     //@ h name=step_pkt_puback_w2_r1 props=C05,C10,C17 tier=quick cap=small to=1200
     //@ h name=step_pkt_pubrec_w1_r2 props=C05,C10,C17 tier=quick cap=small to=1200
     //@ h name=step_pkt_pubcomp_w2_r1 props=C05,C10,C17 tier=thorough cap=small to=1200
-    //@ h name=step_pkt_puback_pruned props=C10,C15,C17 tier=thorough cap=small to=1200 mem=30
+    //@ h name=step_pkt_puback_pruned props=C10,C15,C17 tier=quick cap=small to=1200 mem=30
     //@ claim: as step_pkt_*, with the waiter queue and the retransmit queue NOT aligned (the addressed waiter second in line while its stored packet is first, or the other way round; _pruned: no waiter left for the acknowledgement but its stored packet still queued): the position in one queue says nothing about the other
     //@ bounds: as step_pkt_*
     //@ funcs: Context::handle_packet, utils::rx_action_id, utils::linear_search_by_key
